@@ -438,6 +438,11 @@ def check_uses_dask(rep, ddf, frames, meta):
     whole = pd.concat(frames)
     rng = rep.rng
     nrows = meta.get('nrows') or U.NROWS
+    if ddf.npartitions > U.WIDE_ABOVE:
+        # every query below would run the whole graph (a multi-stage shuffle) again: the partitions
+        # of a wide frame are computed once (persist() of the repo keeps type and active column -
+        # table row DPersist) and the queries asked of that
+        ddf = ddf.persist(scheduler='synchronous')
     # partition bounds / partition sindex come from the active column (public accessors:
     # ddf.geometry.partition_bounds, ddf.partition_sindex)
     fresh = ddf.copy()
@@ -493,7 +498,15 @@ def check_uses_dask(rep, ddf, frames, meta):
     t0 = rng.randint(0, nrows - 2)
     t1 = rng.randint(t0, min(nrows - 1, t0 + 2))
     box = U.box_over(t0, t1)
-    got = ddf.cx[box[0]:box[1], box[2]:box[3]].compute(scheduler='synchronous')
+    try:
+        got = ddf.cx[box[0]:box[1], box[2]:box[3]].compute(scheduler='synchronous')
+    except KeyError as e:
+        if U.dask_internal_keyerror(e) and meta.get('npartitions', 0) > 32 and U.dask_task_shuffle_subset_bug() \
+                and any(o.get('op') in SHUFFLES for o in meta.get('dask_ops', [])):
+            # see run_dask_steps: Dask's KeyError on a subset of the partitions of a wide task shuffle
+            rep.count('dask:wide-task-shuffle-subset-keyerror-skipped')
+            return
+        raise
     want_mask = U.rows_in_box(whole, name, box)
     rep.evaluations += 1
     gcols = meta['geoms']
@@ -843,6 +856,7 @@ def run_dask_steps(ddf, dops_spec, rep, rng, nsteps, history, layout_meta, nrows
     o = U.observe_dask(ddf, frames)
     first = o
     nsh = 0
+    widest = ddf.npartitions
     for step in range(nsteps):
         if dops_spec is not None:
             if step >= len(dops_spec):
@@ -884,6 +898,17 @@ def run_dask_steps(ddf, dops_spec, rep, rng, nsteps, history, layout_meta, nrows
             # divisions IndexError): outside the model, the operation is not counted
             done.pop()
             rep.count('dask:degenerate-repartition-skipped')
+            break
+        widest = max(widest, parent.npartitions)
+        if not U.is_bad(o) and nsh > 0 and widest > 32 and (o[2] is None or any(p_ is None for p_ in o[1])) \
+                and U.LAST_ERRORS and all(t == 'KeyError' and '/dask/' in fn for _w, t, fn in U.LAST_ERRORS) \
+                and U.dask_task_shuffle_subset_bug():
+            # Dask (2026.8) raises KeyError when a subset of the partitions of a multi-stage task
+            # shuffle (> 32 partitions) is computed - reproduced on plain pandas frames at this very
+            # moment (dask_task_shuffle_subset_bug): a Dask matter (reported), not a question of
+            # the active geometry; the operation is not counted
+            done.pop()
+            rep.count('dask:wide-task-shuffle-subset-keyerror-skipped')
             break
         if not U.is_bad(o) and op['op'] in SHUFFLES:
             op['nout'] = len(o[1])
@@ -1175,14 +1200,16 @@ def run(rep):
         specs = [[{'op': 'DSortValues', 'auto': True}],
                  [{'op': 'DSetIndex', 'auto': True}]]
         if how == 'full':
-            specs += [[{'op': 'DPackPartitions', 'auto': True, 'want': 2}],
-                      [{'op': 'DPackPartitions', 'auto': True, 'want': None}],
-                      [{'op': 'DSetGeometry', 'name': other}, {'op': 'DSortValues', 'auto': True}],
-                      [{'op': 'DRepartition', 'auto': True}, {'op': 'DSetIndex', 'auto': True}]]
+            specs += [[{'op': 'DPackPartitions', 'auto': True, 'want': rng.choice([2, None])}],
+                      [{'op': 'DSetGeometry', 'name': other}, {'op': 'DSortValues', 'auto': True}]]
+            if not quick:
+                specs += [[{'op': 'DPackPartitions', 'auto': True, 'want': None}],
+                          [{'op': 'DRepartition', 'auto': True}, {'op': 'DSetIndex', 'auto': True}]]
         for si, spec in enumerate(specs):
-            add_dask(cols, target, k, spec, nrows=nrows, uses=(si == 0))
-        for _ in range(2 if how == 'full' else 1):
+            add_dask(cols, target, k, spec, nrows=nrows, uses=(si == 0 and (wi != 1 or not quick)))
+        for _ in range((1 if wi != 1 else 0) if quick else 3):
             add_dask(cols, target, k, None, rng.randint(1, 3), nrows=nrows, kinds=shuffle_heavy)
+    rep.extra['dask_task_shuffle_subset_keyerror_on_plain_pandas'] = U.dask_task_shuffle_subset_bug()
     mark('dask-wide')
     report_state_mismatches(rep, 'run_dask', D_CASE, D_RES, d_cases, d_res, d_meta, 'dask')
     mark('dask-coq')
@@ -1192,13 +1219,48 @@ def run(rep):
     tmp = tempfile.mkdtemp(prefix='sp_c20_')
     try:
         nds = (4 if quick else 40) if on('parquet') else 0
-        for s in range(nds):
-            cols, target = fixed[s] if s < len(fixed) else layout_random(rng)
-            df = GeoDataFrame(U.build_dict(cols)).set_geometry(target)
-            ddf = dd.from_pandas(df, npartitions=rng.randint(1, 4))
+        # after the ordinary datasets: WIDE ones (11 / 33+ pieces, re-read and then really shuffled)
+        # and one per plain-column storage parquet can carry (re-read, then every geometry dropped)
+        pfl = U.flavours('parquet')
+        extra = [('wide', k) for k in ([33] if quick else [11, 33, 40])] + \
+                [('storage', f) for f in (rng.sample(pfl, 2) if quick else pfl)]
+        for s in range(nds + (len(extra) if on('parquet') or on('wide') else 0)):
+            special = extra[s - nds] if s >= nds else None
+            nrows = U.NROWS
+            if special and special[0] == 'wide':
+                cols, target = fixed[0]
+                nrows = special[1] * 2
+                want_parts = special[1]
+            elif special:
+                cols, target = [('a', 0, 0), (special[1], None, 1), ('b', 2, 3), ('v', None, 0)], 'b'
+                want_parts = rng.randint(1, 4)
+            else:
+                cols, target = fixed[s] if s < len(fixed) else layout_random(rng)
+                want_parts = rng.randint(1, 4)
+            df = GeoDataFrame(U.build_dict(cols, nrows)).set_geometry(target)
+            ddf = dd.from_pandas(df, npartitions=want_parts)
             path = os.path.join(tmp, f'ds{s}.parq')
             ddf.to_parquet(path)
             gnames = [n for n, k, _ in cols if k is not None]
+            if special:
+                # read with the non-first column active, then the given operations
+                plain = [n for n, k, _ in cols if k is None]
+                spec = [{'op': 'DSortValues', 'auto': True}] if special[0] == 'wide' else \
+                    [{'op': 'DSubset', 'names': plain}, {'op': 'DMapIdentity'}]
+                r = read_parquet_dask(path, geometry=target)
+                first, res, done, last, frames = run_dask_steps(
+                    r, spec, rep, rng, len(spec), [],
+                    {'kind': 'parquet', 'columns': cols, 'geometry': target, 'npartitions': r.npartitions,
+                     'nrows': nrows}, nrows=nrows)
+                q_cases.append((U.coq_cols(cols), C.Some(target), C.Nat(r.npartitions), [U.dop_coq(o) for o in done]))
+                q_res.append(wrap_dask(first, res))
+                q_meta.append({'columns': cols, 'geometry': target, 'npartitions': r.npartitions, 'nrows': nrows,
+                               'dask_ops': [U.strip_private(o) for o in done], '_done': done, '_res': res,
+                               '_first': first})
+                rep.evaluations += 1
+                rep.count('parquet:read_parquet_dask:' + special[0])
+                rep.nontrivial(('parquet', special, r.npartitions, repr([U.strip_private(o) for o in done])))
+                continue
             for g in gnames + [None, '', 'v', 'missing']:
                 try:
                     r = read_parquet_dask(path, geometry=g)
@@ -1406,13 +1468,14 @@ def replay(rep, rp):
         tmp = tempfile.mkdtemp(prefix='sp_c20_')
         try:
             from spatialpandas import GeoDataFrame
+            nrows = rp.get('nrows') or U.NROWS
             if kind == 'dask':
-                _r, pdone, df = run_pandas_seq(cols, [dict(o) for o in rp['pandas_ops']])
+                _r, pdone, df = run_pandas_seq(cols, [dict(o) for o in rp['pandas_ops']], nrows=nrows)
                 ddf = dd.from_pandas(df, npartitions=rp['npartitions'])
                 head = (U.coq_cols(cols), [U.pop_coq(o) for o in pdone], C.Nat(ddf.npartitions))
                 fn, cty = 'run_dask', D_CASE
             else:
-                df = GeoDataFrame(U.build_dict(cols))
+                df = GeoDataFrame(U.build_dict(cols, nrows))
                 path = os.path.join(tmp, 'ds.parq')
                 dd.from_pandas(df, npartitions=rp['npartitions']).to_parquet(path)
                 g = rp['geometry']
@@ -1427,7 +1490,7 @@ def replay(rep, rp):
                 head = (U.coq_cols(cols), None if g is None else C.Some(g), C.Nat(ddf.npartitions))
                 fn, cty = 'run_read_parquet_dask', Q_CASE
             first, res, done, _last, _frames = run_dask_steps(ddf, [dict(o) for o in rp['dask_ops']], rep,
-                                                              rep.rng, len(rp['dask_ops']), [], None)
+                                                              rep.rng, len(rp['dask_ops']), [], None, nrows=nrows)
             case = head + ([U.dop_coq(o) for o in done],)
             bad = public_mismatches(rep, fn, cty, [case], [wrap_dask(first, res)], 'dask')
             print('impl :', first, res)
